@@ -84,8 +84,18 @@ def build(ctx=None):
 def coqc(path, extra_q=(), timeout=600, cwd=None):
     """compile one file; returns (rc, stdout+stderr)"""
     cmd = ["timeout", str(timeout), "coqc"] + COQ_Q + list(extra_q) + [path]
-    p = subprocess.run(cmd, capture_output=True, text=True, cwd=cwd)
+    p = subprocess.run(cmd, capture_output=True, text=True, cwd=cwd, preexec_fn=_big_stack)
     return p.returncode, p.stdout + p.stderr
+
+
+def _big_stack():
+    """coqc overflows the default 8 MB stack on list literals of some 50 000 elements (kernel_sample case files)"""
+    import resource
+    try:
+        hard = resource.getrlimit(resource.RLIMIT_STACK)[1]
+        resource.setrlimit(resource.RLIMIT_STACK, (hard, hard))
+    except (ValueError, OSError):
+        pass
 
 
 _THM_RE = re.compile(r"^\s*(Theorem|Lemma|Corollary)\s+([A-Za-z0-9_']+)", re.M)
@@ -128,11 +138,30 @@ def compile_and_record(ctx, src, label, extra_q=(), subdir="props", timeout=900)
     return True
 
 
+def coqchk(ctx, rel, timeout=1500):
+    """thorough tier: re-check the compiled property file and everything it depends on with the
+    independent checker; records one obligation and the axiom summary coqchk prints"""
+    mod = "InToto." + rel[:-2].replace("/", ".")
+    cmd = ["timeout", str(timeout), "coqchk", "-o", "-silent"] + COQ_Q + [mod]
+    p = subprocess.run(cmd, capture_output=True, text=True, cwd=COQ)
+    out = p.stdout + p.stderr
+    m = re.search(r"\* Axioms:(.*?)\n\s*\n", out, re.S)
+    axioms = " ".join(m.group(1).split()) if m else "?"
+    ctx.notes.append("coqchk -o %s: axioms %s" % (mod, axioms))
+    flags_clean = all(re.search(pat + r"\s*<none>", out) for pat in
+                      (r"type-in-type:", r"unsafe \(co\)fixpoints:", r"positivity is assumed:"))
+    ctx.oblige("coqchk:" + rel, p.returncode == 0 and axioms == "<none>" and flags_clean, out[-600:])
+    return p.returncode == 0
+
+
 def check_props(ctx, files):
-    """Recompile the property statement files (so the run itself witnesses them)."""
+    """Recompile the property statement files (so the run itself witnesses them);
+    in the thorough tier also run coqchk on the installed .vo of each."""
     ok = True
     for rel in files:
         ok = compile_and_record(ctx, os.path.join(COQ, rel), rel) and ok
+        if ctx.thorough() and ok and os.environ.get("VERIF_NO_COQCHK") != "1":
+            ok = coqchk(ctx, rel) and ok
     return ok
 
 
@@ -195,6 +224,17 @@ class Model:
                     answers[idx] = json.loads(results[i][k])
                 except (ValueError, IndexError):
                     answers[idx] = {"driver_error": results[i][k] if k < len(results[i]) else "missing"}
+        # a driver process that died (killed under memory pressure, ...) loses the rest of its shard:
+        # re-run those requests one by one in fresh processes before reporting a driver error
+        for idx, a in enumerate(answers):
+            if isinstance(a, dict) and "driver_error" in a:
+                p = subprocess.run([DRIVER], input=lines[idx] + "\n", capture_output=True, text=True)
+                out = p.stdout.split("\n")[0]
+                try:
+                    answers[idx] = json.loads(out)
+                    self.raw[idx] = out
+                except ValueError:
+                    answers[idx] = {"driver_error": out or ("exit status %s" % p.returncode)}
         return answers
 
 
